@@ -26,8 +26,48 @@ func main() {
 			*tier = "quick"
 		}
 		os.Exit(runCheck(*id, *tier, *only, *verbose))
+	case "selftest":
+		fs := flag.NewFlagSet("selftest", flag.ExitOnError)
+		id := fs.String("property", "", "property id (default all)")
+		verbose := fs.Bool("v", false, "verbose")
+		fs.Parse(os.Args[2:])
+		os.Exit(runSelftest(*id, *verbose))
+	case "warm":
+		os.Exit(runWarm())
 	default:
 		fmt.Println("unknown command", os.Args[1])
 		os.Exit(2)
 	}
+}
+
+// runWarm loads every package named in a property config once so that the go
+// build cache is populated (first cold load is slow).
+func runWarm() int {
+	ents, _ := os.ReadDir(verifDir() + "/props")
+	seen := map[string]bool{}
+	var pkgs []string
+	for _, e := range ents {
+		if len(e.Name()) < 6 {
+			continue
+		}
+		pc, err := loadPropConfig(e.Name()[:len(e.Name())-5])
+		if err != nil {
+			continue
+		}
+		for _, p := range pc.Packages {
+			if !seen[p] {
+				seen[p] = true
+				pkgs = append(pkgs, p)
+			}
+		}
+	}
+	if len(pkgs) == 0 {
+		return 0
+	}
+	if _, err := LoadProg(pkgs, nil); err != nil {
+		fmt.Println("warm:", err)
+		return 1
+	}
+	fmt.Println("warm: loaded", len(pkgs), "packages")
+	return 0
 }
